@@ -220,12 +220,15 @@ def key_bits(key):
     return np.asarray(jax.random.key_data(key)) if _is_typed(key) else np.asarray(key)
 
 
-def key_at(seed, path):
-    """the key at a path of the spec's key machine below PRNGKey(seed) (pure jax.random)"""
-    key = jax.random.PRNGKey(seed)
+def walk(key, path):
+    """follow a path of the spec's key machine below `key` (pure jax.random)"""
     for ch in path:
         key = jax.random.split(key, 2)[int(ch)]
     return key
+
+
+def key_at(seed, path):
+    return walk(jax.random.PRNGKey(seed), path)
 
 
 # ------------------------------------------------------------------ handlers
@@ -257,9 +260,14 @@ def _same_state(a, b):
     return ka.shape == kb.shape and bool(np.all(ka == kb))
 
 
-def check_instance(inst, exp):
-    """-> list of (handler, entry, quantity, detail); empty = conforms"""
+def check_instance(inst, exp, stats=None):
+    """-> list of (handler, entry, quantity, detail); empty = conforms.  `stats` (dict) counts what was exercised"""
     bad = []
+    stats = {} if stats is None else stats
+
+    def count(k):
+        stats[k] = stats.get(k, 0) + 1
+
     nin, nout, d = inst["nin"], inst["nout"], inst["d"]
     E = {k: to_float(exp[k]) for k in ("fx", "dense", "diag", "trace")}
     fun, x, kwargs = make_fun(inst)
@@ -294,11 +302,12 @@ def check_instance(inst, exp):
                 continue
             cmp(hname, entry, "fx", fx, E["fx"])
             cmp(hname, entry, "jacobian", blk, want[entry])
+            count("enumerated_or_exact_calls")
             stochastic = mode is not None and entry != "materialize_dense"
             if stochastic:
                 if enum.requests != [(nprobes[mode], nrows[mode], d)]:
                     bad.append((hname, entry, "probes", f"drew probes of shapes {enum.requests}, spec: one draw of {(nprobes[mode], nrows[mode], d)}"))
-                if not _same_state(state1, key_at(inst["seed"], "0")):
+                if not _same_state(state1, walk(state0, "0")):
                     bad.append((hname, entry, "state", "returned state is not split(key)[0]"))
             else:
                 if enum.requests:
@@ -312,6 +321,7 @@ def check_instance(inst, exp):
         h = ctor(inst["num_probes"])
         state = h.init_jacobian_handler()
         used = [key_bits(state).tobytes()]
+        path = ""  # the spec's path of the state that goes into the next call (the root is checked in (1))
         for c_inst, c_exp in zip(inst["calls"], exp["calls"]):
             kind = c_inst["kind"]
             entry = ENTRY_OF[kind]
@@ -330,16 +340,19 @@ def check_instance(inst, exp):
                 if not _same_state(state1, state):
                     bad.append((hname, entry, "state", "a call that draws nothing changed the state"))
                 continue
-            # key machine
-            if not _same_state(state1, key_at(inst["seed"], c_exp["state"])):
-                bad.append((hname, entry, "state", f"returned state is not the key at path {c_exp['state']!r} (split(key)[0])"))
+            # key machine, relative to the state that went in (no follow-up alarms after a first divergence)
+            assert c_exp["state"].startswith(path) and c_exp["draw"].startswith(path)
+            step_state, step_draw = c_exp["state"][len(path) :], c_exp["draw"][len(path) :]
+            path = c_exp["state"]
+            if not _same_state(state1, walk(state, step_state)):
+                bad.append((hname, entry, "state", f"returned state is not the key at path {c_exp['state']!r} (split(key)[0] of the state passed in)"))
             if _same_state(state1, state):
                 bad.append((hname, entry, "state", "the key did not advance"))
             if len(rec.draws) != 1:
                 bad.append((hname, entry, "draw-key", f"{len(rec.draws)} draws in one call, spec: 1"))
             for kbits, shape, _v in rec.draws:
-                if not np.all(kbits == key_bits(key_at(inst["seed"], c_exp["draw"]))):
-                    bad.append((hname, entry, "draw-key", f"probes not drawn from the key at path {c_exp['draw']!r} (split(key)[1])"))
+                if not np.all(kbits == key_bits(walk(state, step_draw))):
+                    bad.append((hname, entry, "draw-key", f"probes not drawn from the key at path {c_exp['draw']!r} (split(key)[1] of the state passed in)"))
                 if kbits.tobytes() in used:
                     bad.append((hname, entry, "draw-key", "a key was used twice"))
                 used.append(kbits.tobytes())
@@ -351,10 +364,12 @@ def check_instance(inst, exp):
             w = to_float(c_exp[mode])
             if len(rec.draws) == 1 and rec.draws[0][2].shape == v_spec.shape and np.all(rec.draws[0][2] == v_spec):
                 cmp(hname, entry, "estimate", blk, w)
+                count("estimates_on_real_draws")
             else:
                 # the handler drew other probes than jax gives for (split(key)[1], (s, n, d)): not a violation by
                 # itself; bind the estimate with the spec's probes substituted
                 fixed = Fixed(v_spec)
+                count("estimates_on_substituted_probes")
                 try:
                     with patched_rademacher(fixed):
                         _fx, blk2, _s = _call(h, entry, fun, x, state, kwargs, False)
@@ -372,11 +387,11 @@ def check_instance(inst, exp):
 
     # ---- (3) input contract
     for k, (case, accept) in enumerate(zip(inst["shapes"], exp["accept"])):
-        bad += check_shape_case(inst, case, bool(accept), k)
+        bad += check_shape_case(inst, case, bool(accept), k, count)
     return bad
 
 
-def check_shape_case(inst, case, accept, k=0):
+def check_shape_case(inst, case, accept, k=0, count=lambda k: None):
     bad = []
     xs, fs = tuple(case["xs"]), tuple(case["fs"])
     xarr = jnp.arange(1.0, 1.0 + int(np.prod(xs, dtype=int))).reshape(xs)
@@ -399,6 +414,7 @@ def check_shape_case(inst, case, accept, k=0):
                 raised = None
             except Exception as e:  # noqa: BLE001  (the code raises TypeError / ValueError; any exception is a rejection)
                 raised = e
+            count("accepted_calls" if accept else "rejected_calls")
             if accept and raised is not None:
                 bad.append((hname, entry, "accepts", f"x.shape={xs} f(x).shape={fs} rejected: {type(raised).__name__}: {str(raised)[:200]}"))
             if not accept and raised is None:
